@@ -119,6 +119,9 @@ type GCase struct {
 	Runs  []Inv      `json:"runs"`
 	Plan  simos.Plan `json:"plan,omitempty"`
 	TTY   bool       `json:"tty,omitempty"`
+	// StdoutKind: pipe (default) | devnull | file - what the real IsTerminal
+	// code is asked about; none of them is a terminal
+	StdoutKind string `json:"stdout_kind,omitempty"`
 	// Enumerate: C10 enumerates every kill and fault point of the last run.
 	Enumerate bool `json:"enumerate,omitempty"`
 	// Only restricts the enumeration to one plan index.
@@ -126,6 +129,9 @@ type GCase struct {
 	Only    int  `json:"only,omitempty"`
 	// PartialSeed seeds mid-write and partial-write lengths.
 	PartialSeed uint64 `json:"partial_seed,omitempty"`
+	// FullSig: enumerate every interleaving of the signal handler's two steps
+	// with the remaining operations of main instead of a handful.
+	FullSig bool `json:"full_sig,omitempty"`
 }
 
 // fileBytes realises the content of a file spec.
@@ -183,6 +189,7 @@ func stillDecodes(img []byte, format string, content []byte) bool {
 func buildWorld(c *GCase) *simos.World {
 	w := simos.NewWorld()
 	w.TTY = c.TTY
+	w.StdoutKind = c.StdoutKind
 	for i := range c.Files {
 		f := &c.Files[i]
 		switch f.Kind {
